@@ -25,7 +25,7 @@ import re
 # fixed in the repository (known/C17.json, status fixed): no region any more — a recurrence is reported as a violation
 KNOWN_COMMENT = None
 KNOWN_CASE = None
-KNOWN_MISSING = 'C17-missing-handback'
+KNOWN_MISSING = None      # C17-missing-handback: fixed (ed45313)
 KNOWN_COLOUR = None
 
 NUM = ('DIMENSION', 'NUMBER', 'PERCENTAGE')
